@@ -6,7 +6,7 @@ from collections import deque
 from vlib import COQ, VERIF
 
 PROPERTY = "C18"
-CONSTS = ["prbs"]
+CONSTS = ["prbs", "crc", "framedecoder", "viterbi", "golay", "puncture", "interleave", "randomizer", "mod"]
 COQ_TARGETS = ["Properties_C18.vo", "Extract_C18.vo"]
 PROPERTIES_FILE = "Properties_C18.v"
 LEVEL = "proof"
